@@ -66,6 +66,8 @@ def h_capture(sx):
         if name == "before_all":
             root.setLevel(logging.DEBUG)
             root.addHandler(user_handler)
+            if p.get("capture_level_notset"):
+                root.setLevel(logging.WARNING)      # the application's own root level; capture level NOTSET = capture everything
             if p.get("stale_level_cache"):
                 # the application logger was already asked "is WARNING enabled?" while the root level was higher
                 # (e.g. a module logging at import time): loggers cache that answer until some setLevel() call
@@ -92,6 +94,8 @@ def h_capture(sx):
             cfg.stderr_capture = sx.bool("stderr_capture")
             cfg.log_capture = sx.bool("log_capture")
         cfg.logging_clear_handlers = bool(p.get("clear_handlers"))
+        if p.get("capture_level_notset"):
+            cfg.logging_level = logging.NOTSET
         if p.get("log_filter"):
             # --logging-filter with included AND excluded categories = "everything except the excluded ones"
             # (the markers are logged on "harness", the filler records on "harness.fill")
@@ -224,6 +228,7 @@ def jobs(tier, seed):
                        "rule": ([F([S(1), R([S(1)], bg=1)], bg=1)], {"out_dom": D})})
     shapes["volume"] = ([F([S(2), S(1)])], {"out_dom": {"*": [0, 1]}, "undef": False, "log_volume": [0, 600, 1000]})
     shapes["filter"] = ([F([S(2), S(1)])], {"out_dom": {"*": [0, 1]}, "undef": False, "log_volume": [0, 3]})
+    shapes["level-notset"] = ([F([S(2), S(1)])], {"out_dom": {"*": [0, 1]}, "undef": False, "log_markers_at_info": True})
     shapes["stale-level-cache"] = ([F([S(2), S(1)])], {"out_dom": {"*": [0, 1]}, "undef": False})
     shapes["switch-off-midrun"] = ([F([S(1), S(2)])], {"out_dom": {"*": [0, 1]}, "undef": False})
     shapes["nested"] = ([F([S(2), S(1)])], {"out_dom": {"*": [0, 1]}, "nested_steps": ["f0.i0.0", "f0.i1.0"], "undef": False})
@@ -231,7 +236,7 @@ def jobs(tier, seed):
         for clear in ((False,) if tier == "quick" else (False, True)):
             js.append(Job("capture.%s.c%d" % (name, clear), "props.c18:h_capture",
                           {"shapes": sh, "opts": opts, "fault": name == "hookfault", "clear_handlers": clear,
-                           "log_filter": "other,-harness.fill" if name == "filter" else None, "stale_level_cache": name == "stale-level-cache",
+                           "log_filter": "other,-harness.fill" if name == "filter" else None, "stale_level_cache": name == "stale-level-cache", "capture_level_notset": name == "level-notset",
                            "switch_off_before_second": name == "switch-off-midrun"},
                           reach=[REACH[0], REACH[3]] if name == "switch-off-midrun" else REACH if name != "hookfault" else REACH[:3],
                           min_paths=4 if name == "switch-off-midrun" else 20, cost=100, validate=60))
